@@ -246,6 +246,33 @@ def ev(e, env, st):
     return st[1][key]
 
 
+def ev_mag(e, env, st):
+    """(value, largest absolute value of any sub-expression): floats carry about 16 digits, so a result that is
+    many orders of magnitude smaller than something computed on the way (cancellation) is not reproducible in
+    floating point and cannot be judged against the exact value."""
+    if isinstance(e, str) or not (e[0] in NUM_OPS and len(e) == 3):
+        v = ev(e, env, st)
+        return v, abs(v)
+    (a, ma), (b, mb) = ev_mag(e[1], env, st), ev_mag(e[2], env, st)
+    if e[0] == "+":
+        v = a + b
+    elif e[0] == "-":
+        v = a - b
+    elif e[0] == "*":
+        v = a * b
+    else:
+        if b == 0:
+            raise Undefined("division by zero")
+        v = a / b
+    return v, max(ma, mb, abs(v))
+
+
+def float_unsafe(value, mag, other=0):
+    """True when the exact value (or the gap to `other`) is too small, compared with the intermediate results, to
+    survive double precision."""
+    return mag > 10 ** 5 * max(1, abs(value)) or (mag > 10 ** 9 and mag > 10 ** 11 * abs(value - other) > 0)
+
+
 def compare(op, a, b, eps=DEFAULT_EPS, strict_boundary=False):
     """Property C12: = <= >= hold within the tolerance, < and > are strict."""
     d = abs(a - b)
@@ -287,7 +314,10 @@ def holds(c, env, st, world, eps=DEFAULT_EPS):
             and not is_number(c[1]) and not is_number(c[2]):
         return env.get(c[1], c[1]) == env.get(c[2], c[2])
     if h in CMP_OPS:
-        return compare(h, ev(c[1], env, st), ev(c[2], env, st), eps)
+        (a, ma), (b, mb) = ev_mag(c[1], env, st), ev_mag(c[2], env, st)
+        if max(ma, mb) > 10 ** 9 and 0 < abs(a - b) * 10 ** 11 < max(ma, mb):
+            raise Ambiguous()      # the decision hangs on digits that cancellation destroys in floating point
+        return compare(h, a, b, eps)
     return (h,) + tuple(env.get(t, t) for t in c[1:]) in st[0]
 
 
@@ -337,6 +367,42 @@ def fired_effects(eff, env, st, world, eps=DEFAULT_EPS):
 
     collect(eff, env, ())
     return out
+
+
+def cancellation_in_effects(eff, env, st, world, eps=DEFAULT_EPS):
+    """True when some fluent written by the firing effects ends up many orders of magnitude below what was
+    computed on the way (right-hand sides, the old value, the partial sums): not reproducible in floats."""
+    sums = {}
+    for g, k, p in fired_effects(eff, env, st, world, eps):
+        if k in ("add", "del"):
+            continue
+        key, _ = p
+        sums.setdefault(key, []).append((g, k))
+    if not sums:
+        return False
+    mags = {}
+
+    def collect(e, env):
+        if not e:
+            return
+        h = e[0]
+        if h == "and":
+            for x in e[1:]:
+                collect(x, env)
+        elif h == "when":
+            if holds(e[1], env, st, world, eps):
+                collect(e[2], env)
+        elif h == "forall":
+            vars_ = parse_typed_vars(e[1])
+            for combo in itertools.product(*[world.of_type(t) for _, t in vars_]):
+                collect(e[2], {**env, **{v: o for (v, _), o in zip(vars_, combo)}})
+        elif h in ASSIGN_OPS:
+            key = (e[1][0],) + tuple(env.get(t, t) for t in e[1][1:])
+            _, m = ev_mag(e[2], env, st)
+            mags[key] = max(mags.get(key, 0), m, abs(st[1].get(key, 0)))
+    collect(eff, env)
+    final = successor(eff, env, st, world, eps)[1]
+    return any(m > 10 ** 5 * max(1, abs(final.get(key, 0))) for key, m in mags.items())
 
 
 def successor(eff, env, st, world, eps=DEFAULT_EPS):
@@ -584,7 +650,8 @@ def validate_domain(dom, objects=None, strict_types=True):
                 elif x[0] == "forall":
                     _chk(len(x) == 3 and isinstance(x[1], list) and len(x[1]) == 3 and x[1][1] == "-", "bad forall effect")
                     v, _, qt = x[1]
-                    _chk(isinstance(v, str) and v.startswith("?") and v not in scope and qt in tn, "bad quantifier")
+                    # (a quantified variable may re-use a parameter's name: it shadows the parameter inside the effect)
+                    _chk(isinstance(v, str) and v.startswith("?") and qt in tn, "bad quantifier")
                     _chk(isinstance(x[2], list) and x[2] and x[2][0] == "when", "forall effect body must be a when")
                     when_ok(x[2], {**scope, v: qt})
                 else:
